@@ -206,6 +206,23 @@ def r2(ctx):
                               expected="[setup(model.clusters[k], ...) for k ...]", found=str(t)[:120])
                     found_store = True
         if not found_store:
+            # append form: `tasks = []` + one unconditional `tasks.append(setup(model.clusters[k], ...))` per k - the same list
+            try:
+                rt_ = b.return_term()
+            except Exception:
+                rt_ = None
+            comps_ = [x for x in (tm.subterms(rt_) if rt_ is not None else []) if isinstance(x, Comp) and x.kind == "list" and
+                      isinstance(x.elt, App) and is_submit(x.elt.fn)]
+            rt_ = comps_[0] if len(comps_) == 1 else None
+            if isinstance(rt_, Comp) and not rt_.conds and any(isinstance(x, App) and is_submit(x.fn) for x in tm.subterms(rt_.elt)):
+                cl = [x for x in tm.subterms(rt_.elt) if isinstance(x, Idx) and isinstance(x.base, Attr) and x.base.name == "clusters"]
+                ok = bool(cl) and all(x.idx == (rt_.var,) for x in cl)
+                ctx.check(ok, prod, "task list built in cluster order by an append loop", role="producer:index",
+                          expected="tasks.append(setup(model.clusters[k], ...)) for k ...", found=str(rt_)[:120])
+                want = tm.Range(0, Attr(Attr(Sym("model"), "arguments"), "num_clusters"))
+                ctx.check(rt_.iter == want, prod, "one task per cluster id in range(num_clusters)", role="producer:range", expected=str(want), found=str(rt_.iter))
+                found_store = True
+        if not found_store:
             raise AnalysisError("producer of the task list not recognised in optimize_markov_random_fields")
     # consumer: results are paired with clusters positionally and appended in order
     cons = ana.func("graphical_lasso._retrieve_optimization_results")
